@@ -48,8 +48,8 @@ CHECKS = {
             "msgID); echo must succeed exactly as the tied-clock twin run, everything else must raise.",
             "deterministic simulation: simulated wall clock (stepping/jumping) and id-perturbing agent, twin-run oracle"),
     "C08": ("exploration", "6 C08",
-            "The matrix status x index class x binding list x operation x protocol (18 216 cells) is enumerated completely in "
-            "both tiers against a scripted agent (thorough: every status -2..63 and the INTEGER length boundaries, 60 000+ "
+            "The matrix status x index class x binding list x operation x protocol (20 976 cells) is enumerated completely in "
+            "both tiers against a scripted agent (thorough: every status -2..63 and the INTEGER length boundaries, 67 000+ "
             "cells); oracle is an independent RFC 3416 status->exception table, error_status and offending_oid.",
             "deterministic simulation: scripted error-status agent, full matrix enumeration, RFC table oracle"),
     "C09": ("fault_enumeration", "6 C09",
